@@ -15,6 +15,27 @@ def run(tier):
         jobs.append(("run w=%d N=%d" % (w, n), "c09_harness.c", ["-DW=%d" % w, "-DN=%d" % n], w + n + 2))
         jobs.append(("reset w=%d" % w, "c09_misc.c", ["-DPART=2", "-DW=%d" % w], w + 2))
     jobs.append(("run w=3 N=2 (max_len < w)", "c09_harness.c", ["-DW=3", "-DN=2"], 8))
+    # the assembly scans, lifted from the freshly assembled objects (asmsym/lift_rh.py), in place of the portable C scan
+    import sys
+    sys.path.insert(0, os.path.join(VERIF, "asmsym"))
+    import lift_rh, lift_c
+    lifted = {}
+    for v in ("00", "04"):
+        try:
+            o = common.nasm_obj("rolling_hash/rolling_hash2_until_%s.asm" % v, wd)
+            path = os.path.join(wd, "lifted_%s.c" % v)
+            open(path, "w").write(lift_rh.lift(o, "_rolling_hash2_run_until_%s" % v, "lifted_run_until_%s" % v))
+            lifted[v] = path
+        except (lift_c.LiftError, common.BuildError) as ex:
+            vd.inconcl("rolling_hash2_until_%s.asm could not be lifted: %s" % (v, str(ex)[:300]))
+    masks04 = ["0x0u", "0xfu", "0x1ff0u", "0xffff0000u"] if tier == "quick" else ["0x0u", "0x1u", "0xfu", "0x1ff0u", "0x00ffff00u", "0xffff0000u", "0x80000001u", "0xffffffffu"]
+    for w in ([1, 2, 3] if tier == "quick" else [1, 2, 3, 4, 5, 8]):
+        n = w + extra_n + 1
+        if "00" in lifted:
+            jobs.append(("run[asm _00] w=%d N=%d" % (w, n), "c09_harness.c", ["-DW=%d" % w, "-DN=%d" % n, '-DSCAN_FILE="%s"' % lifted["00"], "-DSCAN_FN=lifted_run_until_00"], w + n + 2))
+        if "04" in lifted:
+            for mk in masks04:
+                jobs.append(("run[asm _04 mask=%s] w=%d N=%d" % (mk, w, n), "c09_harness.c", ["-DW=%d" % w, "-DN=%d" % n, "-DFIXED_MASK=%s" % mk, '-DSCAN_FILE="%s"' % lifted["04"], "-DSCAN_FN=lifted_run_until_04"], w + n + 2))
     for w in (ws if tier == "quick" else list(range(1, 49))):
         jobs.append(("table-pin+init w=%d" % w, "c09_misc.c", ["-DPART=1", "-DW=%d" % w], 258))
     jobs.append(("mask_gen", "c09_misc.c", ["-DPART=3", "-DW=1"], 34))
@@ -67,7 +88,10 @@ def run(tier):
         else:
             vd.inconcl("%s: counterexample for '%s' not reproduced natively: %s" % (name, mine[0], out[-300:]))
     ev.extend_unique("units", ["rolling_hash/rolling_hash2.c", "rolling_hash/rolling_hashx_base.c", "rolling_hash/rolling_hash2_table.h"])
-    ev.extend_unique("functions_encoded", ["_rolling_hash2_run", "hash_fn", "_rolling_hash2_run_until_base", "_rolling_hash2_reset", "_rolling_hash2_init", "_rolling_hashx_mask_gen"])
+    ev.extend_unique("units", ["rolling_hash/rolling_hash2_until_00.asm (lifted from the assembled object)", "rolling_hash/rolling_hash2_until_04.asm (lifted from the assembled object)"])
+    ev.assume("assembly scans: lifted instruction by instruction from the assembled object (System V entry, three stack arguments; undefined registers/flags are nondeterministic draws; the int length argument is zero-extended); _04: pext with a symbolic mask gives no verdict, so the mask is one of the listed constants per run (the _00 scan and the C scan are decided for every mask)")
+    ev.cov["bounds"]["asm_scan_04_masks"] = masks04
+    ev.extend_unique("functions_encoded", ["_rolling_hash2_run_until_00 (lifted)", "_rolling_hash2_run_until_04 (lifted)", "_rolling_hash2_run", "hash_fn", "_rolling_hash2_run_until_base", "_rolling_hash2_reset", "_rolling_hash2_init", "_rolling_hashx_mask_gen"])
     ev.cov["bounds"].update({"windows": ws, "buffer_bytes_per_call": "w+%d" % extra_n, "tables": "table1 arbitrary (not the constants): the result holds for every table", "mask/trigger": "free 32-bit with trigger & ~mask == 0"})
     ev.cov["outside_bounds"] += ["windows not listed", "calls longer than the bound (one inductive step covers any history of calls within the bound)", "the SSE/AVX2 scan kernels (asmsym part)", "max_len >= 2^31 (int max_idx of the portable scan)"]
     ev.assume("representation invariant assumed on entry and re-established on exit: hash == H_w(history[0..w)), table2[b] == rol64(table1[b], w)",
